@@ -274,7 +274,20 @@ def install(E):
             ('wf', wfK(c.h1, c.res.t)),
             ('fresh', z3.And(c.res.t >= c.h0.alloc, c.res.t < c.h1.alloc, fresh_kripke(c.h0, c.h1, c.res.t)))]
 
+    def sub_dead_ends_cut(c, path):
+        # every state that makes the constructor call fail is a dead end of the induced relation
+        s, d = X('s'), X('d')
+        h = path.heap
+        Sset = h.set_of(path.env['S'].t)
+        Erel = h.rel_of(path.env['E'].t)
+        K = c.V.x.mem
+        k = c.self.t
+        return z3.ForAll([s], z3.Implies(
+            z3.And(z3.Or(Sset[s], hp.isend(Erel, s)), z3.Not(z3.Exists([d], Erel[s, d]))),
+            z3.And(K[s], V(c.h0, k)[s], z3.Not(z3.Exists([d], z3.And(edge(c.h0, k, s, d), K[d]))))))
+
     reg(Contract(
         'Kripke.get_substructure', 'kripke', [('self', 'kripke'), ('V', 'setlike')], ret='kripke',
         requires=lambda c: [('wf', wfK(c.h0, c.self.t))],
-        ensures=sub_ens, raises={'RuntimeError': sub_raise}, touches={'dd', 'dv', 'sets', 'fld__next', 'fld__labels', 'fld_S0'}, owner='C14'))
+        ensures=sub_ens, raises={'RuntimeError': sub_raise},
+ touches={'dd', 'dv', 'sets', 'fld__next', 'fld__labels', 'fld_S0'}, owner='C14'))
